@@ -295,6 +295,7 @@ class BuilderSim:
         if op.get('block_patch'):
             os.makedirs(blockdir, exist_ok=True)
             self.bump('patch_table_unreadable')
+            self.faults['patch_table_unreadable'] = self.faults.get('patch_table_unreadable', 0) + 1
         try:
             if op.get('fresh_first'):
                 fresh = self.make_builder(opts)
@@ -582,7 +583,7 @@ def simplifiers(op):
 
 def required_probes(prop, tier):
     return ['flight_ok', 'flight_failed', 'ok_after_failure', 'failed_injected', 'failed_unknown_origin',
-            'failed_mass_out_of_envelope', 'iter_converged']
+            'failed_mass_out_of_envelope', 'iter_converged', 'patch_table_unreadable', 'patch_only_airport_ok']
 
 
 def evidence_info(prop):
@@ -598,9 +599,13 @@ def evidence_info(prop):
                      'GroundTrack, Weather on the repository test weather file', 'Config'],
             'simulated': ['performance model behind a delegating wrapper with a fault point per evaluate',
                           'Weather constructor / get_ground_speed and airport lookup behind fault-injecting pass-throughs',
-                          'airports.csv written by the harness (via data_path_overrides)'],
+                          'airports.csv written by the harness (via data_path_overrides)',
+                          'a directory in the place of the supplemental airport table on the search path '
+                          '(fault kind patch_table_unreadable)',
+                          'order of reference flight and used-builder flight (short-lived Mission objects)'],
         },
-        'fault_kinds': ['sentinel_evaluate', 'sentinel_airport', 'sentinel_weather_init', 'sentinel_ground_speed'],
+        'fault_kinds': ['sentinel_evaluate', 'sentinel_airport', 'sentinel_weather_init', 'sentinel_ground_speed',
+                        'patch_table_unreadable'],
         'assumptions': ['step fractions 0.01 / 0.02 only (other values trip a C02-class defect of the point '
                         'hand-over, identical in both builders)'],
     }
